@@ -10,7 +10,7 @@ V = pathlib.Path(__file__).resolve().parent.parent
 muts = runpy.run_path(sys.argv[1])['MUTS']
 only = sys.argv[2:]
 for label, file, old, new in muts:
-    r = subprocess.run([str(V / 'tools/mutate.py'), file, old, new, *only], capture_output=True, text=True)
+    r = subprocess.run([str(V / 'tools/mutate.py'), file, old, new, *only], capture_output=True, text=True, env=dict(__import__('os').environ, MUT_RAW='1'))
     if r.returncode and 'checks report' not in r.stdout:
         print(f'{label:40s} ERROR {r.stderr.strip()[-200:]} {r.stdout[-200:]}')
         continue
